@@ -58,6 +58,10 @@ Seg(s, i, b, d) ==
       \* `wait` after a background command that already exited with an unaccepted status ("bgfail") fails at once,
       \* before it would wait for the commands started later: those are still alive when the failure path begins
       [] l = "wait"  -> [ip |-> i, bg |-> b, d |-> d, v |-> "fail", gate |-> FALSE]
+      \* a custom command ends the run through T itself (T.FailNow / T.Skip, not the script's Fatalf and not the skip
+      \* command): no line cleans up after it, the background commands are still alive when the end-of-run path begins
+      [] l = "tfail" -> [ip |-> i, bg |-> b, d |-> d, v |-> "fail", gate |-> FALSE]
+      [] l = "tskip" -> [ip |-> i, bg |-> b, d |-> d, v |-> "skip", gate |-> FALSE]
       [] l = "skip"  -> [ip |-> i, bg |-> 0, d |-> d, v |-> "skip", gate |-> FALSE]
       [] l = "stop"  -> [ip |-> i, bg |-> 0, d |-> d, v |-> "pass", gate |-> FALSE]
       [] OTHER       -> Seg(s, i + 1, b, d)
